@@ -471,3 +471,132 @@ mod tests {
         assert_eq!(width, glyph_limits.advance_max);
     }
 }
+
+/// Verification hooks (add-only, compiled only with `--cfg fontc_verif`): thin wrappers that
+/// drive the private builders of this module with plain data.
+#[cfg(fontc_verif)]
+pub mod verif_hooks {
+    use super::*;
+    use write_fonts::{
+        read::tables::glyf::{Anchor, CurvePoint, Transform},
+        tables::glyf::{Component, ComponentFlags, CompositeGlyph, SimpleGlyph},
+    };
+
+    /// Plain description of a glyf entry, as far as `MaxBuilder` looks at it.
+    #[derive(Debug, Clone)]
+    pub enum HookGlyph {
+        Empty,
+        /// points per contour, bbox `[x_min, y_min, x_max, y_max]`
+        Simple(Vec<usize>, [i16; 4]),
+        /// component glyph ids, bbox
+        Composite(Vec<u16>, [i16; 4]),
+    }
+
+    #[derive(Debug, Clone, PartialEq, Eq)]
+    pub struct HookMetrics {
+        pub long_metrics: Vec<(u16, i16)>,
+        pub side_bearings: Vec<i16>,
+        pub advance_max: u16,
+        pub min_first_side_bearing: i16,
+        pub min_second_side_bearing: i16,
+        pub max_extent: i16,
+    }
+
+    #[derive(Debug, Clone, PartialEq, Eq)]
+    pub struct HookLimits {
+        pub max_points: u16,
+        pub max_contours: u16,
+        pub max_component_elements: u16,
+        pub max_composite_points: u16,
+        pub max_composite_contours: u16,
+        pub max_component_depth: u16,
+        pub bbox: Option<[i16; 4]>,
+    }
+
+    /// `MetricsBuilder::update` for every `(advance, side_bearing, bounds_advance)`, then `build`.
+    pub fn metrics(glyphs: &[(u16, i16, Option<i32>)]) -> HookMetrics {
+        let mut builder = MetricsBuilder::default();
+        for (advance, side_bearing, bounds_advance) in glyphs {
+            builder.update(*advance, *side_bearing, *bounds_advance);
+        }
+        let m = builder.build();
+        HookMetrics {
+            long_metrics: m
+                .long_metrics
+                .iter()
+                .map(|l| (l.advance, l.side_bearing))
+                .collect(),
+            side_bearings: m.first_side_bearings.clone(),
+            advance_max: m.advance_max.to_u16(),
+            min_first_side_bearing: m.min_first_side_bearing.to_i16(),
+            min_second_side_bearing: m.min_second_side_bearing.to_i16(),
+            max_extent: m.max_extent.to_i16(),
+        }
+    }
+
+    fn bbox_of(b: &[i16; 4]) -> Bbox {
+        Bbox {
+            x_min: b[0],
+            y_min: b[1],
+            x_max: b[2],
+            y_max: b[3],
+        }
+    }
+
+    fn raw_glyph(g: &HookGlyph) -> RawGlyph {
+        match g {
+            HookGlyph::Empty => RawGlyph::Empty,
+            HookGlyph::Simple(contours, bbox) => RawGlyph::Simple(SimpleGlyph {
+                bbox: bbox_of(bbox),
+                contours: contours
+                    .iter()
+                    .map(|n| {
+                        (0..*n)
+                            .map(|i| CurvePoint::on_curve((i % 1000) as i16, 0))
+                            .collect::<Vec<_>>()
+                            .into()
+                    })
+                    .collect(),
+                instructions: Vec::new(),
+            }),
+            HookGlyph::Composite(components, bbox) => {
+                let mut composite = CompositeGlyph::try_from_iter(components.iter().map(|gid| {
+                    (
+                        Component::new(
+                            GlyphId16::new(*gid),
+                            Anchor::Offset { x: 0, y: 0 },
+                            Transform::default(),
+                            ComponentFlags::default(),
+                        ),
+                        Bbox::default(),
+                    )
+                }))
+                .expect("a composite needs components");
+                composite.bbox = bbox_of(bbox);
+                RawGlyph::Composite(composite)
+            }
+        }
+    }
+
+    /// `MaxBuilder::update` for every glyph (glyph id = index), then `update_composite_limits`.
+    pub fn limits(glyphs: &[HookGlyph]) -> HookLimits {
+        let mut builder = MaxBuilder::default();
+        for (i, g) in glyphs.iter().enumerate() {
+            let glyph = Glyph {
+                name: format!("g{i}").as_str().into(),
+                data: raw_glyph(g),
+            };
+            builder.update(GlyphId16::new(i as u16), &glyph);
+        }
+        let composite = builder.update_composite_limits();
+        HookLimits {
+            max_points: builder.max_points,
+            max_contours: builder.max_contours,
+            max_component_elements: builder.max_component_elements,
+            max_composite_points: composite.max_points,
+            max_composite_contours: composite.max_contours,
+            max_component_depth: composite.max_depth,
+            bbox: builder.bbox.map(|b| [b.x_min, b.y_min, b.x_max, b.y_max]),
+        }
+    }
+}
